@@ -59,7 +59,8 @@ static const char* USYS[4] = {"METRIC", "FIELD", "LAB", "PVT-M"};
 // ------------------------------------------------------------------ model ---
 // Every dimension: 0 = the full-featured default, other values = one deviation.
 enum Dim { D_MSW, D_UDQ, D_ACT, D_P1ST, D_CSHUT, D_INJ, D_PCTL, D_GCTL, D_EFAC, D_NET, D_WLIST, D_HIST, D_DYN, D_CONN, D_WSPEC, D_WGC, D_VFP, D_TREE, NDIM };
-static const int DIM_N[NDIM] = {4, 3, 4, 3, 2, 3, 5, 4, 3, 2, 2, 2, 3, 4, 2, 2, 2, 2};
+static const int DIM_N[NDIM] = {5, 3, 4, 3, 2, 3, 5, 4, 3, 2, 2, 2, 3, 4, 2, 2, 2, 2};
+// msw: 0 three segments / two branches, 1 standard well, 2 WSEGVALV, 3 WSEGSICD, 4 six segments with branch-interleaved numbering
 static const char* DIM_NAME[NDIM] = {"msw", "udq", "actionx", "P1status", "connshut", "I1kind", "P1ctl", "groupctl", "efac", "network", "wlist", "wconhist", "dynstate", "P1conn", "welspecs", "wgrupcon", "vfp", "gruptree"};
 struct Model {
     int d[NDIM] = {0};
@@ -91,7 +92,7 @@ static std::string head_text(int us, int fmt, int unif, int restart_n) {
     s += std::string(USYS[us]) + "\n";
     if (fmt) s += "FMTOUT\nFMTIN\n";
     if (unif) s += "UNIFOUT\nUNIFIN\n";
-    s += "TABDIMS\n 1 1 20 20 3 20 /\nEQLDIMS\n 1 /\nREGDIMS\n 3 /\nWELLDIMS\n 6 4 4 6 /\nWSEGDIMS\n 2 5 3 /\n"
+    s += "TABDIMS\n 1 1 20 20 3 20 /\nEQLDIMS\n 1 /\nREGDIMS\n 3 /\nWELLDIMS\n 6 4 4 6 /\nWSEGDIMS\n 2 8 3 /\n"
          "UDQDIMS\n 10 10 4 4 4 4 4 4 4 4 4 /\nUDADIMS\n 10 1* 10 /\nACTDIMS\n 4 10 /\nNETWORK\n 5 4 /\nSTART\n 1 JAN 2020 /\n"
          "GRID\nDX\n 27*100 /\nDY\n 27*100 /\nDZ\n 27*10 /\nTOPS\n 9*2000 /\nPORO\n 27*0.3 /\nPERMX\n 27*100 /\nPERMY\n 27*50 /\nPERMZ\n 27*10 /\n"
          "ACTNUM\n 13*1 0 13*1 /\nPROPS\n"
@@ -112,8 +113,12 @@ static std::string schedule_text(const Model& M, int restart_n) {
     // ---- block 0
     s += "GRUPTREE\n 'G1' 'FIELD' /\n 'G2' 'FIELD' /\n 'G3' 'G2' /\n/\n";
     s += std::string("WELSPECS\n 'P1' 'G1' 1 1 2005 OIL ") + (d[D_WSPEC] == 1 ? "50.0 STD STOP NO " : "") + "/\n" + std::string(" 'P2' 'G1' 2 1 1* OIL /\n 'P3' 'G1' 3 1 1* OIL /\n 'I1' 'G3' 3 3 2010 ") + (d[D_INJ] == 1 ? "GAS" : "WATER") + " /\n/\n";
-    s += std::string("COMPDAT\n") + (d[D_CONN] == 1 ? " 'P1' 1 1 1 3 OPEN 1* 12.5 0.2 1000 1.5 1* X /\n" : " 'P1' 1 1 1 3 OPEN 1* 1* 0.2 /\n") + " 'P2' 2 1 1 2 OPEN 1* 1* 0.2 /\n 'P3' 3 1 1 2 OPEN 1* 12.5 0.25 /\n 'I1' 3 3 1 2 OPEN 1* 25.0 0.2 3* Z /\n/\n";
-    if (d[D_MSW] != 1) s += "WELSEGS\n 'P2' 2005 0 1* INC HF- /\n 2 2 1 1 10 10 0.2 0.0001 /\n 3 3 2 2 10 5 0.15 0.0002 /\n/\nCOMPSEGS\n 'P2' /\n 2 1 1 1 0 10 /\n 2 1 2 2 10 20 /\n/\n";
+    s += std::string("COMPDAT\n") + (d[D_CONN] == 1 ? " 'P1' 1 1 1 3 OPEN 1* 12.5 0.2 1000 1.5 1* X /\n" : " 'P1' 1 1 1 3 OPEN 1* 1* 0.2 /\n") + (d[D_MSW] == 4 ? " 'P2' 2 1 1 3 OPEN 1* 1* 0.2 /\n" : " 'P2' 2 1 1 2 OPEN 1* 1* 0.2 /\n") + " 'P3' 3 1 1 2 OPEN 1* 12.5 0.25 /\n 'I1' 3 3 1 2 OPEN 1* 25.0 0.2 3* Z /\n/\n";
+    // msw = 4: segment numbers interleaved between branches (main stem 1,2,5,6 on branch 1, lateral 3,4 on branch 2 off segment 2):
+    // WellSegments keeps branches consecutive (storage order 1 2 5 6 3 4), so storage position != segment number - 1
+    if (d[D_MSW] == 4) s += "WELSEGS\n 'P2' 2005 0 1* INC HF- /\n 2 2 1 1 10 10 0.2 0.0001 /\n 3 3 2 2 10 2 0.15 0.0002 /\n 4 4 2 3 10 2 0.15 0.0002 /\n 5 5 1 2 10 5 0.2 0.0001 /\n 6 6 1 5 10 5 0.2 0.0001 /\n/\n"
+                            "COMPSEGS\n 'P2' /\n 2 1 1 1 10 20 /\n 2 1 2 2 20 30 /\n 2 1 3 1 20 30 /\n/\n";
+    else if (d[D_MSW] != 1) s += "WELSEGS\n 'P2' 2005 0 1* INC HF- /\n 2 2 1 1 10 10 0.2 0.0001 /\n 3 3 2 2 10 5 0.15 0.0002 /\n/\nCOMPSEGS\n 'P2' /\n 2 1 1 1 0 10 /\n 2 1 2 2 10 20 /\n/\n";
     if (d[D_MSW] == 2) s += "WSEGVALV\n 'P2' 3 0.7 0.002 /\n/\n";
     if (d[D_MSW] == 3) s += "WSEGSICD\n 'P2' 3 3 0.001 1.2 /\n/\n";
     if (d[D_CONN] == 3) s += "COMPLUMP\n 'P1' 1 1 1 2 1 /\n 'P1' 1 1 3 3 2 /\n/\n";
@@ -448,11 +453,12 @@ static Outcome run_case(const Case& c) {
             for (int i = 0; i < x.size; ++i) cmp_num(o, id, "element " + std::to_string(i), extra_value(x, i, n), v[i], TOL_DBL);      // always DOUB
         }
         using O = data::Rates::opt;
+        auto check_wells = [&](const data::Wells& loaded, Outcome& o, bool count_skipped) {
         for (const auto& w : sched->getWells(n - 1)) {
             const std::string kind = obs::well_kind(w);
-            const auto it = rv2.wells.find(w.name());
-            if (w.getStatus() != Well::Status::OPEN) { R->count("wells_not_flowing_skipped"); continue; }
-            if (it == rv2.wells.end()) { fail(o, "dyn:well.missing:" + kind, w.name() + " not in loaded wells"); continue; }
+            const auto it = loaded.find(w.name());
+            if (w.getStatus() != Well::Status::OPEN) { if (count_skipped) R->count("wells_not_flowing_skipped"); continue; }
+            if (it == loaded.end()) { fail(o, "dyn:well.missing:" + kind, w.name() + " not in loaded wells"); continue; }
             const auto& a = wells.at(w.name()); const auto& b = it->second;
             const std::string W = w.name();
             static const O ph[3] = {O::oil, O::wat, O::gas}; static const char* phn[3] = {"oil", "wat", "gas"};
@@ -483,6 +489,21 @@ static Outcome run_case(const Case& c) {
                     cmp_num(o, "dyn:seg.pressure", S, as.pressures[data::SegmentPressures::Value::Pressure], bs->second.pressures[data::SegmentPressures::Value::Pressure], TOL_DBL);
                 }
             }
+        }
+        };
+        check_wells(rv2.wells, o, true);
+        // Second reading of the same file: RestartIO::load with the ORIGINAL Schedule (a restarted run that internalises the whole
+        // SCHEDULE history instead of rebuilding it from the file; e.g. its WellSegments keep the deck's storage order).
+        // A difference seen only here gets the suffix :deck-schedule.
+        {
+            stage = "load-with-deck-schedule";
+            SummaryState st3(TimeService::from_time_t(sched->getStartTime()), udq_undef); Action::State astate3;
+            const auto rv3 = RestartIO::load(fname, n, astate3, st3, skeys, res, res.getInputGrid(), *sched, xkeys);
+            Outcome o3; o3.obs = o.obs;
+            check_wells(rv3.wells, o3, false);
+            o.compared += o3.compared; o.obs = o3.obs;
+            for (const auto& f : o3.fails) { bool seen = false; for (const auto& g : o.fails) if (g.id == f.id) seen = true; if (!seen) fail(o, f.id + ":deck-schedule", f.what); }
+            stage = "oracle-dynamic";
         }
         // cumulative totals (SummaryState holds them in output units on both sides)
         {
@@ -630,7 +651,7 @@ int main(int argc, char** argv) {
     fs::create_directories(dir); fs::current_path(dir);
 
     const int budget = run.thorough() ? 2 : 1;
-    run.rule = "model: 3x3x3 grid with an inactive cell, groups FIELD<-G1,G2<-G3, wells P1 (producer, ORAT+BHP, UDA target), P2 (multi-segment producer, 3 segments / 2 branches), "
+    run.rule = "model: 3x3x3 grid with an inactive cell, groups FIELD<-G1,G2<-G3, wells P1 (producer, ORAT+BHP, UDA target), P2 (multi-segment producer, 3 segments / 2 branches; variant: 6 segments numbered 1,2,5,6 / 3,4 across two branches), "
                "P3 (STOP with cross-flow, later SHUT, later OPEN), I1 (water injector, UDA rate), I2 (gas injector introduced at step 2), WCONHIST period, WEFAC/GEFAC, GCONPROD (UDA target)/GCONINJE, WLIST, "
                "UDQ ASSIGN+DEFINE at field/group/well level, ACTIONX run at report step 1 (its WELTARG applied with Schedule::applyAction), BRANPROP/NODEPROP network, WELOPEN on a connection, "
                "later blocks with WELSPECS/COMPDAT/WELTARG/WELOPEN/WEFAC/GCONPROD/WCONPROD acting on the restored objects, 4 report steps; deviations: each of " + std::to_string((int)NDIM) + " features removed/varied (alternatives per feature: ";
@@ -649,6 +670,8 @@ int main(int argc, char** argv) {
         "solution arrays are REAL/DOUB (an INTE solution array cannot be requested back through a RestartKey)",
         "ACTIONX runs at report step 1 and again at report step 2; for n = 1 the action is still pending (an action triggered while report step n itself is written acts on schedule state n, which the file does not describe)",
         "same numeric deck in every unit system (a different physical model per system)",
+        "the well/connection/segment part of oracle 1 is evaluated twice: EclipseIO::loadRestart with the restarted Schedule and RestartIO::load with the original (deck-built) Schedule",
+        "segments are identified by segment number; the storage order inside WellSegments (deck: branch by branch, restart: by number) is not compared",
         "a FORMATTED restart file prints REAL with 8 and DOUB with 14 significant digits: tolerances 2.5e-7 / 1e-13 there",
         "requested control mode of an open well: the file stores the ACTIVE control in its single slot; the restarted schedule may answer with the saved active control instead of the requested one (counted, not a violation); the set of controls and every limit/target is compared",
         "UDQ ASSIGN definitions are compared through the defined values they give for the wells/groups existing when the assignment was entered",
